@@ -13,8 +13,33 @@ import (
 
 // outcomes explores body exhaustively and returns the set of final observation logs.
 func outcomes(t *testing.T, name string, c int, body func()) (map[string]bool, explore.Stats) {
+	set, st := outcomesMode(t, name, c, false, body)
+	if c < 0 {
+		// partial-order reduction (DPOR + sleep sets) must give exactly the same outcome set
+		set3, st3 := outcomesMode2(t, name+"/dpor", c, body)
+		if keys(set) != keys(set3) {
+			t.Fatalf("%s: DPOR exploration differs: cached {%s} vs dpor {%s}", name, keys(set), keys(set3))
+		}
+		t.Logf("%s: cached execs=%d states=%d; dpor execs=%d blocked=%d", name, st.Executions, st.States, st3.Executions, st3.SleepBlocked)
+	}
+	return set, st
+}
+
+func (noCh) End(w *vs.World) {}
+
+type noCh struct{}
+
+func outcomesMode(t *testing.T, name string, c int, sleep bool, body func()) (map[string]bool, explore.Stats) {
+	return outcomesM(t, name, c, false, false, body)
+}
+
+func outcomesMode2(t *testing.T, name string, c int, body func()) (map[string]bool, explore.Stats) {
+	return outcomesM(t, name, c, false, true, body)
+}
+
+func outcomesM(t *testing.T, name string, c int, sleep, dpor bool, body func()) (map[string]bool, explore.Stats) {
 	set := map[string]bool{}
-	sc := &explore.Scenario{Name: name, C: c, F: 2, Body: body, HangOK: true, PanicOK: true,
+	sc := &explore.Scenario{Name: name, C: c, F: 2, Body: body, HangOK: true, PanicOK: true, DPOR: dpor,
 		Check: func(r *vs.Result) []vs.Failure {
 			o := strings.Join(r.Obs, ",")
 			if !r.BodyDone {
